@@ -83,7 +83,11 @@ struct Kinds {
 };
 
 enum StrKind { SK_LINKED = 0, SK_CHARPTR, SK_STDSTRING, SK_STRINGVIEW, SK_JSONSTRING_COPIED,
-               SK_JSONSTRING_LINKED, SK_CHARARRAY, SK_COUNT };
+               SK_JSONSTRING_LINKED, SK_CHARARRAY,
+#ifdef ARDUINO
+               SK_ARDUINO_STRING, SK_FLASH,
+#endif
+               SK_COUNT };
 
 inline bool hasNul(const std::string& s) { return s.find('\0') != std::string::npos; }
 
@@ -92,8 +96,7 @@ inline bool hasNul(const std::string& s) { return s.find('\0') != std::string::n
 template <class F>
 auto withString(const std::string& s, Kinds& ks, F&& f) -> decltype(f((const char*)nullptr)) {
   int kind = ks.fixedString >= 0 ? ks.fixedString : (int)ks.next(SK_COUNT);
-  if (hasNul(s) && (kind == SK_LINKED || kind == SK_CHARPTR || kind == SK_JSONSTRING_LINKED ||
-                    kind == SK_CHARARRAY))
+  if (hasNul(s) && !(kind == SK_STDSTRING || kind == SK_STRINGVIEW || kind == SK_JSONSTRING_COPIED))
     kind = SK_STDSTRING;  // zero-terminated kinds cannot carry a NUL
   if (kind == SK_CHARARRAY && s.size() >= 15) kind = SK_CHARPTR;
   ks.log += char('0' + kind);
@@ -130,6 +133,16 @@ auto withString(const std::string& s, Kinds& ks, F&& f) -> decltype(f((const cha
     }
     case SK_JSONSTRING_LINKED:
       return f(JsonString(intern(s), s.size(), JsonString::Linked));
+#ifdef ARDUINO
+    case SK_ARDUINO_STRING: {
+      ::String tmp(s.c_str());
+      auto r = f(tmp);
+      tmp = "################";
+      return r;
+    }
+    case SK_FLASH:
+      return f(reinterpret_cast<const __FlashStringHelper*>(convertPtrToFlash(intern(s))));
+#endif
     default: {
       char arr[16];
       memset(arr, 0, sizeof arr);
@@ -385,7 +398,7 @@ inline mj::Value observe(World& w, const std::vector<std::string>& refStatus) {
     size_t n = serializeJson(doc, ser);
     e.set("root", vproj::project(doc.as<JsonVariantConst>()));
     e.set("ovf", mj::Value::mkBool(doc.overflowed()));
-    e.set("ser", mj::Value::mkStr(ser));
+    e.set("ser", mj::Value::mkStr(vproj::tokEncodeLoose(ser)));
     if (n != ser.size() || measureJson(doc) != n) e.set("bad", mj::Value::mkStr("serializeJson count"));
     docs.a.push_back(e);
   }
